@@ -48,6 +48,9 @@ type Config struct {
 	Port      uint16
 	Up        bool
 	NoPriv    bool
+	// Logger, when not nil, is handed to device.NewDevice instead of the silent logger (C01: the log calls are
+	// places where the harness can delay one device goroutine; default nil = unchanged behaviour).
+	Logger *device.Logger
 }
 
 type World struct {
@@ -107,7 +110,11 @@ func NewWorld(cfg Config, withEndpoints bool, peers ...*RefPeer) (*World, error)
 	w := &World{Bind: sim.NewBind(cfg.BindBatch), Tun: sim.NewTun(cfg.TunBatch, cfg.MTU), Peers: peers, Timeout: 5 * time.Second}
 	w.DevPriv = ref.NewPrivate()
 	w.DevPub = ref.PubOf(w.DevPriv)
-	w.Dev = device.NewDevice(w.Tun, w.Bind, device.NewLogger(device.LogLevelSilent, ""))
+	lg := cfg.Logger
+	if lg == nil {
+		lg = device.NewLogger(device.LogLevelSilent, "")
+	}
+	w.Dev = device.NewDevice(w.Tun, w.Bind, lg)
 	var b strings.Builder
 	if !cfg.NoPriv {
 		fmt.Fprintf(&b, "private_key=%s\n", hex.EncodeToString(w.DevPriv[:]))
